@@ -295,6 +295,13 @@ class RunLab(object):
             reg = self.make_registry(st)
             runner = self.ModelRunner(config, features=features, step_registry=reg)
             runner.hooks = self.make_hooks(st)
+            if getattr(self, "capture_hooks", None):
+                # environment.py functions decorated with behave's documented @capture / @capture(level=...) decorator
+                import logging as _logging
+                from behave.log_capture import capture as _capture
+                for j, hname in enumerate(sorted(self.capture_hooks)):
+                    if hname in runner.hooks:
+                        runner.hooks[hname] = (_capture if j % 2 == 0 else _capture(level=_logging.ERROR))(runner.hooks[hname])
             runner.formatters = list(formatters(config, st)) if formatters else []
             st.runner = runner
             self.Scenario.continue_after_failed_step = bool(continue_after_failed_step)
